@@ -39,6 +39,32 @@ pub enum Ev {
     Finish(u8),
 }
 
+thread_local! {
+    /// One paused tokio runtime per worker thread, entered for the life of the thread: pool code may
+    /// create tokio timers (none does on the pinned tree) and must find a time driver; `Tick` moves
+    /// its clock together with the pool's own clock. Nothing runs *on* this runtime.
+    static VIRTUAL_RT: &'static tokio::runtime::Runtime = {
+        let rt: &'static tokio::runtime::Runtime = Box::leak(Box::new(
+            tokio::runtime::Builder::new_current_thread().enable_time().start_paused(true).build().expect("tokio runtime"),
+        ));
+        std::mem::forget(rt.enter());
+        rt
+    };
+}
+
+/// Make sure this thread is inside the virtual-time runtime context.
+pub fn enter_virtual_runtime() {
+    VIRTUAL_RT.with(|_| ());
+}
+
+fn advance_virtual_time(d: Duration) {
+    VIRTUAL_RT.with(|rt| {
+        rt.block_on(async move {
+            tokio::time::advance(d).await;
+        })
+    });
+}
+
 impl Ev {
     pub fn text(&self) -> String {
         match *self {
@@ -268,6 +294,7 @@ impl Drop for Sim {
 
 impl Sim {
     pub fn new(cfg: &SimConfig) -> Sim {
+        enter_virtual_runtime();
         // tasks left over from the previous execution (spawned while it was being torn down) must be
         // dropped while the old world still exists: their destructors talk to harness connections
         for _ in 0..16 {
@@ -714,6 +741,8 @@ impl Sim {
                 let half = if k == 0 { 1 } else { 4 };
                 self.clock_half_t += half;
                 hooks::advance_clock(Duration::from_secs(T_SECS * half / 2));
+                // the same amount of virtual tokio time, so that timers created by pool code fire
+                advance_virtual_time(Duration::from_secs(T_SECS * half / 2));
             }
         }
         world::with(|w| w.actor = None);
